@@ -87,7 +87,7 @@ pub fn zkey_from_folder() -> &'static (ProvingKey<Curve>, ConstraintMatrices<Fr>
 pub fn calculate_rln_witness<I: IntoIterator<Item = (String, Vec<Fr>)>>(
     inputs: I,
     graph_data: &[u8],
-) -> Vec<Fr> {
+) -> Result<Vec<Fr>> {
     calc_witness(inputs, graph_data)
 }
 
